@@ -686,6 +686,8 @@ REGRESSION = [
     ("Foo", "fn foo<T, 'a>(d: &impl A, t: &'a T) {}"),
     ("Foo, no_deps", "fn foo() {}"),
     ("Foo, no_deps", "fn foo(a: i32,) {}"),
+    ("Foo, no_deps", "fn foo(self, a: i32) {}"),
+    ("Foo, no_deps", "mod m { pub fn foo(&self, a: i32) {} }"),
 ]
 
 
@@ -701,6 +703,8 @@ def fam_findings():
     out = []
     for f in json.load(open(path))["findings"]:
         for w in f["witnesses"]:
+            if w.get("compile"):
+                continue     # compile-level witnesses live in the compile probe (harness/compile_probe.py)
             out.append(Case("regression", w["attr"], w["item"], macro=w["macro"], tags={"finding": f["id"], "property": f["property"]}))
     return out
 
